@@ -657,7 +657,7 @@ type Output struct {
 
 func main() {
 	if len(os.Args) < 3 {
-		fail("usage: keyshapes <repo> lean|json|donetx|genesisguards [annotations.json]")
+		fail("usage: keyshapes <repo> lean|json|donetx|genesisguards|routerstart [annotations.json]")
 	}
 	repo, _ := filepath.Abs(os.Args[1])
 	mode := os.Args[2]
@@ -785,6 +785,10 @@ func main() {
 
 	if mode == "donetx" {
 		doneTx(a, tinfos)
+		return
+	}
+	if mode == "routerstart" {
+		routerStart(a)
 		return
 	}
 	if mode == "genesisguards" {
